@@ -101,6 +101,16 @@ def run_case(ck, desc):
         Tg = max(T, 1.06 * (Tpc + 459.67) - 459.67)
         flg = Fluid(Tg, api, gg, gor, salinity=sal)
         tol = 1e-13
+        # a second, unrelated Fluid is built and used BEFORE the first one is asked anything: the
+        # answers below belong to `fl`'s own parameters
+        other = Fluid(T + 61, api + 7, 0.9 * gg, 0.6 * gor, salinity=sal + 3)
+        with np.errstate(all="ignore"):
+            for call in (other.water_FVF, other.water_viscosity, other.oil_FVF, other.oil_viscosity):
+                call(p)
+            other.pressure_bubblepoint()
+            other.gas_FVF(p, Tpc + 40.0, ppc + 25.0)
+            other.gas_viscosity(p, Tpc + 40.0, ppc + 25.0)
+        ck.count("facade_calls_after_another_fluid_was_used")
         _close(ck, "facade.water_FVF", fl.water_FVF(p), [water.b_water_McCain(T, x) for x in p], desc, tol)
         _close(ck, "facade.water_viscosity", fl.water_viscosity(p), [water.viscosity_water_McCain(T, x, sal) for x in p], desc, tol)
         _close(ck, "facade.gas_FVF", flg.gas_FVF(p, Tpc, ppc), [gas.b_factor_DAK(Tg, x, Tpc, ppc) for x in p], desc, tol)
